@@ -413,6 +413,9 @@ func (E *Effects) of(fn *ssa.Function) []Effect {
 			case *ssa.MapUpdate:
 				k := pathOf(x.Map)
 				if k == "" {
+					k = mayPathOf(x.Map)
+				}
+				if k == "" {
 					k = "?"
 				}
 				add(Effect{Key: k + "{}", In: in})
@@ -709,4 +712,50 @@ func spilledParam(a *ssa.Alloc) *ssa.Parameter {
 		}
 	}
 	return par
+}
+
+// mayPathOf: for a join of one named location with objects made locally (m = param; if m == nil { m = make(...) }),
+// the named location — a write through the join is at most a write there. Only for "what may be written".
+func mayPathOf(v ssa.Value) string {
+	ph, ok := v.(*ssa.Phi)
+	if !ok {
+		return ""
+	}
+	seen := map[ssa.Value]bool{}
+	named := ""
+	okAll := true
+	var walk func(x ssa.Value)
+	walk = func(x ssa.Value) {
+		if seen[x] || !okAll {
+			return
+		}
+		seen[x] = true
+		if p, isPhi := x.(*ssa.Phi); isPhi {
+			for _, e := range p.Edges {
+				walk(e)
+			}
+			return
+		}
+		if isNilConst(x) {
+			return
+		}
+		q := pathOf(x)
+		switch {
+		case q == "":
+			okAll = false
+		case strings.HasPrefix(q, "A:") || strings.HasPrefix(q, "C:"):
+		case named == "" || named == q:
+			named = q
+		default:
+			okAll = false
+		}
+	}
+	walk(ph)
+	if !okAll {
+		return ""
+	}
+	if named == "" {
+		return "A:phi"
+	}
+	return named
 }
